@@ -198,17 +198,18 @@ theorem textLikeTy_code (ty : Option Str) (h : textLikeTy ty = true) :
   | some s =>
     simp only [textLikeTy, Bool.and_eq_true] at h
     simp only [Option.map_some, Option.getD_some, Val.lowerKw, textLike, Val.eqStr, Val.str?]
-    exact h.1
+    exact h.1.1
 
 theorem textLikeTy_browser (ty : Option Str) (h : textLikeTy ty = true) :
     asciiLower (((ty.map Val.text).bind Val.str?).getD "text".toList) ≠ "checkbox".toList ∧
-    asciiLower (((ty.map Val.text).bind Val.str?).getD "text".toList) ≠ "radio".toList := by
+    asciiLower (((ty.map Val.text).bind Val.str?).getD "text".toList) ≠ "radio".toList ∧
+    inputNeverPosts (asciiLower (((ty.map Val.text).bind Val.str?).getD "text".toList)) = false := by
   cases ty with
   | none => decide
   | some s =>
     simp only [textLikeTy, Bool.and_eq_true, Bool.not_eq_true', Bool.or_eq_false_iff, beq_eq_false_iff_ne] at h
     simp only [Option.map_some, Option.bind_some, Val.str?, Option.getD_some]
-    exact ⟨h.2.1, h.2.2⟩
+    exact ⟨h.1.2.1, h.1.2.2, h.2⟩
 
 /-- a text-like `<input>` bound to ANY element posts `(flat name, u)` -/
 theorem input_posts (T : Tables) (ctx : Ctx) (hT : TablesOK T) (hL : Live T ctx) (b : Bind) (ty : Option Str)
@@ -253,7 +254,8 @@ theorem button_posts (T : Tables) (ctx : Ctx) (hT : TablesOK T) (hL : Live T ctx
   obtain ⟨s, hs, rfl⟩ := posts_single h
   obtain ⟨st6, body, ht, _, rfl⟩ := seenOf_ok hs
   have hpost := posts_flat_pair_button T b ⟨extra, none, ctx⟩ st6 (Flatland.C11.decodeRefs body)
-    (plain_extra T ctx hL extra hex) (extraOk_nodup hex) (extraOk_get? hex mem_reserved_value) hname
+    (plain_extra T ctx hL extra hex) (extraOk_nodup hex) (extraOk_get? hex mem_reserved_value)
+    (extraOk_get? hex mem_reserved_type) hname
     hT.nameButton hT.valueButton ht
   unfold Spec.PostsFlatPair submittedD at hpost
   have e : sButton = "button".toList := rfl
